@@ -348,6 +348,18 @@ func implHist(p *vproto.Parser) string {
 	for i := range calls {
 		calls[i] = call{p.Int(), p.F(), p.F()}
 	}
+	// optional: transformers built between calls (NewTransform as a history step)
+	lateAt := make([]int, nT)
+	for i := range lateAt {
+		lateAt[i] = -1
+	}
+	if !p.Done() && p.Next() == "|" {
+		nL := p.Int()
+		for i := 0; i < nL; i++ {
+			k, at := p.Int(), p.Int()
+			lateAt[k] = at
+		}
+	}
 
 	// the pool: SR objects parsed once, shared by all transformers of this line; the WGS84 entry of
 	// proj's registry is the object the closure hops through, it gets index nSR unless it is in the pool
@@ -422,9 +434,10 @@ func implHist(p *vproto.Parser) string {
 		return "-"
 	}
 
-	// All transformers of the pool are built before the first call.  (NewTransform returns nil when
-	// source.Equal(dest); building one after a constructor has run on only one of two equal SRs flips
-	// that answer -- an observation about NewTransform, not about the transformers; see notes/C10.md.)
+	// Transformers are built before the first call or, when the line says so, between calls
+	// (NewTransform as a history step).  NewTransform returns nil when source.Equal(dest); building one
+	// after a constructor has run on only one of two equal SRs flips that answer -- an observation about
+	// NewTransform, not about the transformers; the judge does not count it (see notes/C10.md).
 	pool := make([]proj.Transformer, nT)
 	built := make([]string, nT)
 	build := func(k int, srs []*proj.SR) (proj.Transformer, string) {
@@ -443,10 +456,20 @@ func implHist(p *vproto.Parser) string {
 	}
 	orc := &oracle{defs: allDefs, seen: map[string]string{}}
 	for k := range pool {
-		pool[k], built[k] = build(k, all)
+		if lateAt[k] < 0 {
+			pool[k], built[k] = build(k, all)
+		}
 	}
 	for ci, c := range calls {
+		for k := range pool {
+			if lateAt[k] == ci {
+				pool[k], built[k] = build(k, all)
+			}
+		}
 		k := c.t
+		if built[k] == "" { // called before its scheduled build: build now
+			pool[k], built[k] = build(k, all)
+		}
 		// fresh: all SRs parsed anew, one new transformer, one call
 		fr, _ := parseAll(defs)
 		fr = append(fr, wgsSR)
